@@ -29,6 +29,14 @@ CHECKS = {
    text="Generated sets of well-formed requests are multiplexed over one in-memory connection with every wire-level freedom the property names (representation choice per field, HEADERS/CONTINUATION cuts at any octet, padding, priority, DATA chunking, cross-stream interleaving, handler release order, lock-step or burst); the handler's view and the frames received are compared with what was sent / produced. Exploration only: schedules inside the server's own goroutines are sampled, not enumerated.",
    note="Trusted: in-harness reference HPACK + x/net Framer/decoder as the peer; fasthttp containers; hook counters (add no synchronisation) for quiescence.",
    ref="6.2 C01"),
+ "C20": dict(technique="grammar-based property testing (rapid) against an executable RFC 7540 8.1.2 well-formedness predicate, on a served connection with neighbours",
+   text="Header lists are generated from a grammar (well-formed base + catalogue of single and double rule violations, about half well-formed) and placed among other requests; the handler must run iff the predicate holds, otherwise that stream alone is refused with RST_STREAM(PROTOCOL_ERROR) or a 4xx while neighbours and HPACK state stay intact. Server half only so far (client half: see not yet built lanes in DESIGN). Exploration only.",
+   note="Trusted: the predicate of DESIGN appendix B (derived from the RFC text), the scripted peer; CONNECT and out-of-grammar characters excluded as the property says.",
+   ref="6.2 C20"),
+ "C08": dict(technique="model-based property testing (rapid): RFC 7540 5.1/6 reaction model (set of allowed reactions per state x frame) followed along generated frame sequences, lock-step via hook-counter quiescence",
+   text="Generated frame sequences (all stream-level frame kinds with flag/priority/padding/increment variants and undefined flag bits, on new, open, half-closed, reset, completed, skipped, even and zero stream ids, with connection frames in between; immediate or gated handlers) are sent one frame at a time; after each, the observed reaction must lie in the set the RFC allows for that state and frame, legal sequences must raise no error, and handler invocations must equal the legally completed requests. Exploration only.",
+   note="Trusted: the reaction table of DESIGN appendix A (union of what RFC 7540/9113 permit, so server latitude is never flagged); quiescence from hook counters.",
+   ref="6.2 C08, appendix A"),
 }
 PENDING = {}  # id -> reason, for properties not claimed (yet)
 
